@@ -112,18 +112,24 @@ func c12Trace(r *rand.Rand, id string, nops int) []map[string]any {
 		switch {
 		case x < 40:
 			v := 1 + r.Intn(1000)
-			w.Set(k, goat.Int(v))
-			emit(map[string]any{"op": "set", "k": k, "v": v}, t, false)
+			ty := []string{"i", "f", "b"}[r.Intn(3)]
+			if ty == "b" {
+				v = v % 256
+			}
+			w.Set(k, c12TypedValue(ty, v))
+			emit(map[string]any{"op": "set", "k": k, "v": v, "ty": ty}, t, false)
 		case x < 65:
 			w.Delete(k)
 			emit(map[string]any{"op": "del", "k": k}, t, false)
 		case x < 78:
+			// the store to a declared field: mostly an untyped constant (it adopts the type of the value at that key)
 			v := 1 + r.Intn(1000)
-			w.Assign(k, goat.Int(v))
-			emit(map[string]any{"op": "assign", "k": k, "v": v}, t, false)
+			ty := []string{"u", "u", "u", "i", "f"}[r.Intn(5)]
+			w.Assign(k, c12TypedValue(ty, v))
+			emit(map[string]any{"op": "assign", "k": k, "v": v, "ty": ty}, t, false)
 		case x < 92:
 			val, ok := w.Get(k)
-			emit(map[string]any{"op": "get", "k": k, "ok": ok, "v": val.Int()}, t, false)
+			emit(map[string]any{"op": "get", "k": k, "ok": ok, "v": val.Int(), "ty": c12TypeTag(val)}, t, false)
 		case x < 97:
 			emit(map[string]any{"op": "len", "n": w.Len()}, t, false)
 		default:
@@ -137,7 +143,7 @@ func c12Trace(r *rand.Rand, id string, nops int) []map[string]any {
 	for t, w := range tabs {
 		for _, k := range keys {
 			val, ok := w.Get(k)
-			emit(map[string]any{"op": "get", "k": k, "ok": ok, "v": val.Int()}, t, false)
+			emit(map[string]any{"op": "get", "k": k, "ok": ok, "v": val.Int(), "ty": c12TypeTag(val)}, t, false)
 		}
 		emit(map[string]any{"op": "len", "n": w.Len()}, t, true)
 	}
@@ -180,8 +186,8 @@ func checkC12(c *Ctx) {
 	// negative control: a Get observation with the wrong presence flag must be flagged
 	nc := []map[string]any{
 		{"op": "reset", "id": "nc", "t": 1, "dump": [][]int{}},
-		{"op": "set", "t": 1, "k": 5, "v": 7, "dump": [][]int{}},
-		{"op": "get", "t": 1, "k": 5, "ok": false, "v": 0, "dump": [][]int{}},
+		{"op": "set", "t": 1, "k": 5, "v": 7, "ty": "i", "dump": [][]int{}},
+		{"op": "get", "t": 1, "k": 5, "ok": false, "v": 0, "ty": "i", "dump": [][]int{}},
 	}
 	nb := classifyFlatTrace(c, "Trace_IntMap", "Trace_IntMap.cfg", nc)
 	if len(nb) != 1 || nb[0] != 2 {
@@ -984,4 +990,28 @@ func c12LocalTypes(r *rand.Rand, id int) (string, []c12LTrace) {
 	b.WriteString("type acc struct {\n\tG int\n}\n\nfunc (t *B) After() *acc {\n\treturn &acc{G: 8}\n}\n\nfunc mkAcc() *acc {\n\treturn &acc{G: 7}\n}\n\n")
 	b.WriteString("func Main() {\n\ta := &A{}\n\tb := &B{}\n\ta.Run(0)\n\tb.Run(0)\n\ta.Run(1)\n\tb.Run(1)\n\tprintln(\"G\", mkAcc(), b.After(), mkAcc().G+b.After().G)\n}\n")
 	return b.String(), traces
+}
+
+func c12TypedValue(ty string, v int) goat.Value {
+	switch ty {
+	case "f":
+		return goat.Float64(float64(v))
+	case "b":
+		return goat.Uint8(uint8(v))
+	case "u":
+		return goat.VerifUntypedInt(v)
+	}
+	return goat.Int(v)
+}
+
+func c12TypeTag(v goat.Value) string {
+	switch v.Type() {
+	case goat.TypeInt32:
+		return "i"
+	case goat.TypeFloat64:
+		return "f"
+	case goat.TypeUint8:
+		return "b"
+	}
+	return "?"
 }
